@@ -190,6 +190,7 @@ func (t *FnTrans) call(in ssa.Instruction, c *ssa.CallCommon, res ssa.Value) {
 
 func (t *FnTrans) havocCall(key string, c *ssa.CallCommon, res ssa.Value) {
 	t.abstr["havoc-call:"+key] = true
+	defer t.keepPrivateCells()()
 	// everything reachable may change
 	for cn, s := range t.compSort {
 		if strings.HasPrefix(cn, "L.") || strings.HasPrefix(cn, "GL.") {
@@ -275,7 +276,12 @@ func (t *FnTrans) applyContract(ct *Contract, key string, callee *ssa.Function, 
 	}
 	for i, n := range pn {
 		T := argTypes[i]
-		env.vars[n] = SVal{S: t.termOfOpt(args[i]), T: T, Sort: t.sortOf(T), Tgt: args[i].P, Box: args[i].Box, BoxSort: args[i].BoxSort}
+		sv := SVal{S: t.termOfOpt(args[i]), T: T, Sort: t.sortOf(T), Tgt: args[i].P, Box: args[i].Box, BoxSort: args[i].BoxSort}
+		if args[i].Fn != nil {
+			a := args[i]
+			sv.FnV = &a
+		}
+		env.vars[n] = sv
 	}
 	if strings.HasPrefix(ct.Key, t.key+"#") || (t.ct != nil && strings.HasPrefix(ct.Key, t.ct.Key+"#")) {
 		// callback of this function: its contract may mention the function's own parameters
@@ -346,6 +352,11 @@ func (t *FnTrans) applyContract(ct *Contract, key string, callee *ssa.Function, 
 			save := env
 			_ = save
 			t.applyModifies(cc, cenv)
+			// what every invocation maintains holds after any number of them
+			cenv.st = t.cur
+			for _, m := range cc.Maintains {
+				t.assume(cenv.evalBool(m.E))
+			}
 		}
 	}
 	// preconditions
@@ -431,6 +442,30 @@ func (t *FnTrans) applyContract(ct *Contract, key string, callee *ssa.Function, 
 		}
 	}
 	env.selfAlloc0 = pre.H["$alloc"]
+	if ct.Opts["pure"] != "" && strings.Contains(ct.Key, "#") && len(rvals) == 1 && callee == nil {
+		// a pure callback: its result is a function of the function value and the arguments (cbres in contracts)
+		if fs := t.termOfOpt(fnVal); fs != "" {
+			var as, sorts []string
+			as = append(as, fs)
+			sorts = append(sorts, "Int")
+			ok := true
+			for i, a := range args {
+				s := t.termOfOpt(a)
+				if s == "" || i >= len(argTypes) {
+					ok = false
+					break
+				}
+				as = append(as, s)
+				sorts = append(sorts, t.sortOf(argTypes[i]))
+			}
+			if ok {
+				rs := t.sortOf(t.resolve(resT.At(0).Type()))
+				fn := cbresName(sorts[1:], rs)
+				t.declareFun(fn, sorts, rs)
+				t.assume(eq(rvals[0].S, app(fn, as...)))
+			}
+		}
+	}
 	if len(ct.Ensures) > 0 {
 		t.cover(fmt.Sprintf("before.%s.%d", short, nth), "true")
 	}
@@ -545,6 +580,37 @@ func (t *FnTrans) applyModifies(ct *Contract, env *Env) {
 		if t.havocAll && cond != "" {
 			t.fail("modifies-if ... then everything is not supported")
 		}
+	}
+	defer t.keepPrivateCells()()
+	var keepRefs [][3]string // component, ref, pre-state version: single locations that stay as they are
+	defer func() {
+		for _, k := range keepRefs {
+			t.set(k[0], app("store", t.get(k[0]), k[1], app("select", k[2], k[1])))
+		}
+	}()
+	if len(ct.Preserves) > 0 {
+		// exceptions to `modifies everything`: whole components that stay as they are
+		keep := map[string]bool{}
+		hv := t.havocAll
+		for _, m := range ct.Preserves {
+			t.modItem(m.E, env, func(comp string, sortS string, ref string) {
+				t.comp(comp, sortS)
+				pre := t.get(comp) // materialise: a later total havoc must not give it a new generation
+				if ref == "" {
+					keep[comp] = true
+				} else {
+					keepRefs = append(keepRefs, [3]string{comp, ref, pre})
+				}
+			})
+		}
+		t.havocAll = hv
+		var kept []modLoc
+		for _, l := range locs {
+			if !keep[l.comp] {
+				kept = append(kept, l)
+			}
+		}
+		locs = kept
 	}
 	env.st = saveSt
 	if ct.Opts["debts-change"] != "" {
@@ -910,6 +976,34 @@ func (t *FnTrans) frameCheck() {
 	env := t.selfEnv(t.entry, t.entry)
 	for _, m := range t.ct.Modifies {
 		if m.E.Op == "id" && m.E.Name == "everything" && m.Cond == nil {
+			// only the declared exceptions are checked
+			for _, pm := range t.ct.Preserves {
+				t.modItem(pm.E, env, func(comp, sortS, ref string) {
+					t.comp(comp, sortS)
+					if ref != "" {
+						now, was := t.get(comp), t.entryVersion(comp)
+						if w, ok := t.entry.H[comp]; ok {
+							was = w
+						}
+						if now != was {
+							t.obligeNamed(fmt.Sprintf("frame.%s.at.%d%s", comp, t.count("presref"), t.retSuffix()), "frame", eq(app("select", now, ref), app("select", was, ref)), "location of "+comp+" is preserved")
+						}
+						return
+					}
+					now, ok1 := t.cur.H[comp]
+					was, ok2 := t.entry.H[comp]
+					if !ok1 {
+						now = t.get(comp)
+					}
+					if !ok2 {
+						was = t.entryVersion(comp)
+					}
+					if now != was {
+						t.obligeNamed("frame."+comp+t.retSuffix(), "frame", eq(now, was), "component "+comp+" is preserved")
+					}
+				})
+			}
+			t.havocAll = false
 			return
 		}
 		cond := ""
@@ -1365,4 +1459,9 @@ func (t *FnTrans) freshObjectHavoc(ct *Contract, env *Env, pre *State) {
 		t.emit("(assert " + implies(t.guard, fmt.Sprintf("(forall ((fo$r Int)) (! (=> (< fo$r %s) (= (select %s fo$r) (select %s fo$r))) :pattern ((select %s fo$r))))", allocPre, nv, old, nv)) + ")")
 		t.cur.H[comp] = nv
 	}
+}
+
+// cbresName: the uninterpreted function standing for the result of a pure callback of the given argument / result sorts
+func cbresName(argSorts []string, res string) string {
+	return q("cbres$" + mangle(strings.Join(argSorts, ",")+"->"+res))
 }
